@@ -94,7 +94,11 @@ def main(chk):
     if libs and pop0 is not None and 'unfillable' not in pop0.tags:
         N1, N2 = (6000, 24000) if quick else (20000, 80000)
         for fam, mk in mutate.p21_scaling_families(lib0.schema, pop0):
-            scaling.append((fam, mk(N1), mk(N2)))
+            if 'elements' in fam:
+                # per-element work is tiny: these families need tens of thousands of elements before a quadratic term shows
+                scaling.append((fam, mk(40000), mk(160000)))
+            else:
+                scaling.append((fam, mk(N1), mk(N2)))
 
     def work(c):
         lib, data, ws, op, construct = c
